@@ -1,6 +1,7 @@
 import Driver.Proto
 import PtVerif.Model.Print
 import PtVerif.Model.GrammarTable
+import PtVerif.Model.GrammarSpec
 /-! Driver sub-command `grammar`: the formula grammar (C01) and the printer (C13).
 
 Texts cross the protocol as comma-separated code points (`-` = empty text).
@@ -10,6 +11,8 @@ Requests:
 * `parse <text>` → `OK <items> <dens>` | `FAIL` | `ABORT`
 * `print <qitems>` / `str <name> <qitems>` / `repr <name> <qitems>` → `S <text>`
 * `fmtg n d` / `strcount n d` → `S <text>`;  `round6 n d` → `C num dec`
+* `deriv <derivation>` → `D <canon 0|1> <text> (OK <items> <dens> | NONE)`: the yield of a derivation of
+  Model/GrammarSpec.lean, whether it is canonical, and what it denotes in the current table
 * `roundtrip <qitems>` → `OK <items> <dens>` of parsing the printed text, and `EXP <items>` =
   `norm (roundItems …)` on a second token group
 -/
@@ -79,6 +82,101 @@ def showParse : Except Err (Items Cnt × Option Dens) → String
 
 def bad (st : St) : IO St := do reply "ERR bad-op"; pure st
 
+/-! reading a derivation (Model/GrammarSpec.lean) from tokens:
+  cnt   := c0 | cw <ds> | cf <i> <f>
+  elem  := e <pre> <sym> (i0 | i1 <b1> <ds> <b2>) (q0 | q1 <b1> <mag> <0|1 neg> <b2>) cnt
+  group := I cnt <k> elem*k | X <b0> <b1> comp <b2> <b3> cnt
+  comp  := [ group (s <b1> <0|1 plus> <b2> group)* ]
+  whole := E <b> | F <lead> comp (d0 | d1 <b0> cnt <b1> <n|i|->) <trail> -/
+def rdCnt : Toks → Option (CntTok × Toks)
+  | "c0" :: r => some (.none, r)
+  | "cw" :: ds :: r => do let ds ← decText ds; some (.whole ds, r)
+  | "cf" :: i :: f :: r => do let i ← decText i; let f ← decText f; some (.fract i f, r)
+  | _ => none
+
+def rdElem : Toks → Option (Elem × Toks)
+  | "e" :: pre :: sym :: r => do
+    let pre ← decText pre
+    let sym ← decText sym
+    let (iso, r) ← (match r with
+      | "i0" :: r => some (none, r)
+      | "i1" :: b1 :: ds :: b2 :: r => do
+        let b1 ← decText b1; let ds ← decText ds; let b2 ← decText b2
+        some (some (⟨b1, ds, b2⟩ : IsoTok), r)
+      | _ => none)
+    let (ion, r) ← (match r with
+      | "q0" :: r => some (none, r)
+      | "q1" :: b1 :: mag :: neg :: b2 :: r => do
+        let b1 ← decText b1; let mag ← decText mag; let b2 ← decText b2
+        some (some (⟨b1, mag, neg == "1", b2⟩ : IonTok), r)
+      | _ => none)
+    let (cnt, r) ← rdCnt r
+    some (⟨pre, sym, iso, ion, cnt⟩, r)
+  | _ => none
+
+def rdElems : Nat → Toks → Option (List Elem × Toks)
+  | 0, r => some ([], r)
+  | k + 1, r => do
+    let (e, r) ← rdElem r
+    let (es, r) ← rdElems k r
+    some (e :: es, r)
+
+mutual
+partial def rdGroup : Toks → Option (Group × Toks)
+  | "I" :: r => do
+    let (lead, r) ← rdCnt r
+    match r with
+    | k :: r => do
+      let k ← k.toNat?
+      let (es, r) ← rdElems k r
+      some (.implicit lead es, r)
+    | _ => none
+  | "X" :: b0 :: b1 :: r => do
+    let b0 ← decText b0; let b1 ← decText b1
+    let (inner, r) ← rdComp r
+    match r with
+    | b2 :: b3 :: r => do
+      let b2 ← decText b2; let b3 ← decText b3
+      let (cnt, r) ← rdCnt r
+      some (.explicit b0 b1 inner b2 b3 cnt, r)
+    | _ => none
+  | _ => none
+partial def rdComp : Toks → Option (Comp × Toks)
+  | "[" :: r => do
+    let (g, r) ← rdGroup r
+    rdMore g r
+  | _ => none
+partial def rdMore (g : Group) : Toks → Option (Comp × Toks)
+  | "]" :: r => some (.one g, r)
+  | "s" :: b1 :: plus :: b2 :: r => do
+    let b1 ← decText b1; let b2 ← decText b2
+    let (g2, r) ← rdGroup r
+    let (rest, r) ← rdMore g2 r
+    some (.more g ⟨b1, plus == "1", b2⟩ rest, r)
+  | _ => none
+end
+
+def rdCompound : Toks → Option Compound
+  | ["E", b] => do let b ← decText b; some (.empty b)
+  | "F" :: lead :: r => do
+    let lead ← decText lead
+    let (comp, r) ← rdComp r
+    let (dens, r) ← (match r with
+      | "d0" :: r => some (none, r)
+      | "d1" :: b0 :: r => do
+        let b0 ← decText b0
+        let (cnt, r) ← rdCnt r
+        match r with
+        | b1 :: tag :: r => do
+          let b1 ← decText b1
+          some (some (⟨b0, cnt, b1, if tag == "n" then some true else if tag == "i" then some false else none⟩ : DensTok), r)
+        | _ => none
+      | _ => none)
+    match r with
+    | [trail] => do let trail ← decText trail; some (.full lead comp dens trail)
+    | _ => none
+  | _ => none
+
 def handle (st : St) : Toks → IO St
   | ["tblgen"] => do reply "ok"; pure { st with table := genTable }
   | ["tblnew"] => do reply "ok"; pure { st with table := [] }
@@ -122,6 +220,15 @@ def handle (st : St) : Toks → IO St
     match natTok n, natTok d with
     | some n, some d => do let c := round6 ⟨n, d⟩; reply s!"C {c.num} {c.dec}"; pure st
     | _, _ => bad st
+  | "deriv" :: rest =>
+    match rdCompound rest with
+    | some D => do
+      let res := match D.result st.table with
+        | some (fs, d) => "OK " ++ showItemsC fs ++ " " ++ showDens d
+        | none => "NONE"
+      reply s!"D {if D.canon then 1 else 0} {encText D.text} {res}"
+      pure st
+    | none => bad st
   | "roundtrip" :: rest =>
     match readQItems rest with
     | some (s, []) => do
